@@ -187,9 +187,14 @@ func checkC07(c C07Case, rec *obs.Recorder) *obs.Violation {
 	}
 
 	// (2) unmarshal: same observations, same behaviour, byte-identical re-serialization
-	re, err := biscuit.Unmarshal(ser)
+	buf := append([]byte{}, ser...)
+	re, err := biscuit.Unmarshal(buf)
 	if err != nil {
 		return obs.Violf("token %s: Unmarshal of its own serialization fails: %v", desc, err)
+	}
+	// the input buffer belongs to the caller, who reuses it: the token must not depend on it
+	for i := range buf {
+		buf[i] = 0x55
 	}
 	ser2, err := re.Serialize()
 	if err != nil || !bytes.Equal(ser, ser2) {
